@@ -43,12 +43,17 @@ var c01TamperOps = []string{
 var ctxGen = rapid.OneOf(
 	rapid.SampledFrom([]string{"", "a", "ctx", "bifrost/signaling", "a - SIGN - 1", "x - SIGN - "}),
 	rapid.StringN(0, 24, 48),
+	rapid.StringN(0, 24, 48),
+	rapid.StringN(100, 400, 800),
 )
+
+// bodyGen: mostly short bodies, sometimes spanning many hash blocks
+var bodyGen = rapid.OneOf(rapid.SliceOfN(rapid.Byte(), 1, 96), rapid.SliceOfN(rapid.Byte(), 1, 96), rapid.SliceOfN(rapid.Byte(), 97, 5000))
 
 func genC01(t *rapid.T) c01Case {
 	c := c01Case{
 		Key:  rapid.IntRange(0, 3).Draw(t, "key"),
-		Body: rapid.SliceOfN(rapid.Byte(), 1, 96).Draw(t, "body"),
+		Body: bodyGen.Draw(t, "body"),
 		Ctx:  ctxGen.Draw(t, "ctx"),
 		HT:   rapid.IntRange(1, 3).Draw(t, "ht"),
 	}
